@@ -83,6 +83,7 @@ class GraphCheck:
         self.per_case = per_case
         self.caps = {"quick": cap_quick, "thorough": cap_thorough}
         self.use_byteflow = use_byteflow
+        self.reloads = True
 
     # ------------------------------------------------------------ plan
     def plan(self, tier, seed):
@@ -216,7 +217,16 @@ class GraphCheck:
         if "budget" in self.profile:
             done = self.run_budgeted(case, scfg, ctx, acc)
         else:
-            done = drivers.run_stages(scfg, self.stages, ctx)
+            plan = None
+            if case["kind"] == "graph" and self.reloads:
+                plan = drivers.reload_plan(case["g"], case.get("payload", "basic"))
+            if plan:
+                # history: the graph is written out and read back between two
+                # stages; the stage oracles go on against the same input graph
+                done, scfg = drivers.run_stages_reload(scfg, self.stages, ctx, plan)
+                acc.counters["cases_reloaded_between_stages"] += 1
+            else:
+                done = drivers.run_stages(scfg, self.stages, ctx)
         ctx.data["done"] = done
         if self.per_case is not None:
             self.per_case(self, case, scfg, ctx, done)
